@@ -165,7 +165,18 @@ def check(results):
             if e.tag in seen:
                 return True
             return any(walk(k, seen | {e.tag}) for k in e)
-        return walk(root, frozenset())
+        if walk(root, frozenset()):
+            return True
+        # the same limit shows when a member name of an outer struct recurs as a member name further down (a value nested in a
+        # value of the same recursive type under another element name): the same element name at two depths
+        depths = {}
+
+        def visit(e, d):
+            depths.setdefault(e.tag, set()).add(d)
+            for k in e:
+                visit(k, d + 1)
+        visit(root, 0)
+        return any(len(v) > 1 for v in depths.values())
     runtime_limits = 0
     for r in results:
         if r["side"] != "impl" or r["status"] in ("missing-type", "not-run"):
